@@ -2513,6 +2513,9 @@ func decodeProcessorCounters(data *[]byte) (SFlowProcessorCounters, error) {
 	var cdf SFlowCounterDataFormat
 	var high32, low32 uint32
 
+	if len(*data) < 36 {
+		return pc, errors.New("processor counters too small")
+	}
 	*data, cdf = (*data)[4:], SFlowCounterDataFormat(binary.BigEndian.Uint32((*data)[:4]))
 	pc.EnterpriseID, pc.Format = cdf.decode()
 	*data, pc.FlowDataLength = (*data)[4:], binary.BigEndian.Uint32((*data)[:4])
